@@ -1,6 +1,7 @@
 package props
 
 import (
+	"go/token"
 	"golang.org/x/tools/go/ssa"
 	"strings"
 
@@ -156,7 +157,21 @@ func channelRules(c *Ctx) {
 			if okb {
 				okb, _ = an.ImpliesDNF(g, an.DNF{conj(lit(d, an.SNeg))})
 			}
-			q.add("COND", "only delivered entries are nil-ed", okb, "index < len - rollback and value nil", in)
+			if !okb && isNilConst(st.Val) {
+				// a counted loop over [lo, hi) whose counter is the index (also in its rotated / range-over-int form)
+				if ph, isPh := st.Addr.(*ssa.IndexAddr).Index.(*ssa.Phi); isPh {
+					if hi, _, lo, okl := loopBound(P, in); okl && lo >= 0 && hi != nil && P.Lin(hi).Equal(pend) {
+						counter := false
+						for _, e := range ph.Edges {
+							if bo, isB := e.(*ssa.BinOp); isB && bo.Op == token.ADD && bo.X == ssa.Value(ph) {
+								counter = true
+							}
+						}
+						okb = counter
+					}
+				}
+			}
+			q.add("COND", "only delivered entries are nil-ed", okb, pickS(okb, "index < len - rollback and value nil", "an entry that was not delivered can be nil-ed (index < len - rollback not established: "+g.String()+"; index form "+d.String()+")"), in)
 		}
 		for _, r := range returnsOf(q.fn) {
 			if allNil(c.retVals(r, 0)) {
